@@ -1,7 +1,996 @@
-//! Model-backed runs for the ipa scheme: `run(ctx, prop)` is called for every property; handle the
-//! properties this scheme takes part in and return immediately for the others.
+//! Model-backed runs for the ipa scheme (trapdoor mode, Lean model PCV/Model/IPA.lean):
+//! `run(ctx, prop)` is called for every property; the properties this scheme takes part in are
+//! C01 C02 C03 C04 C05 C08 C10 C19.  Case ids `<prop>/ipa-model/…`.
+#[path = "ipa.rs"]
+mod ipa;
+
+use crate::common::*;
+use crate::wire;
 use crate::Ctx;
+use ark_bls12_381::{Fr, G1Affine, G1Projective};
+use ark_ec::{AffineRepr, CurveGroup};
+use ark_ff::{Field, UniformRand, Zero};
+use ark_poly::{DenseUVPolynomial, Polynomial};
+use ark_poly_commit::ipa_pc::CommitterKey;
+use ark_poly_commit::{Evaluations, LabeledPolynomial, PCCommitterKey, PolynomialCommitment, QuerySet};
+use ark_serialize::{CanonicalSerialize, Compress};
+use ipa::*;
+use std::ops::Mul;
 
 pub fn run(ctx: &mut Ctx, prop: &str) {
-    let _ = (ctx, prop);
+    match prop {
+        "C01" => c01(ctx),
+        "C02" => c02(ctx),
+        "C03" => c03(ctx),
+        "C04" => c04(ctx),
+        "C05" => c05(ctx),
+        "C08" => c08(ctx),
+        "C10" => c10(ctx),
+        "C19" => c19(ctx),
+        _ => {}
+    }
+}
+
+fn degrees(ctx: &Ctx) -> &'static [usize] {
+    if ctx.thorough {
+        DEGREES_THOROUGH
+    } else {
+        DEGREES_QUICK
+    }
+}
+
+fn new_case(ctx: &mut Ctx, rng: &mut Rng, id: &str, req: usize, npoly: usize, bounds: bool, hiding: bool) -> Option<Case> {
+    match guarded(|| gen_case(rng, req, npoly, bounds, hiding)) {
+        Ok(Ok(c)) => Some(c),
+        Ok(Err(e)) | Err(e) => {
+            ctx.rep.expect_fail(id, "ipa/in-domain-setup-refused", &format!("trim/commit refused an in-domain request: {}", e),
+                format!("# scheme: ipa\n# case: {}\n# seed: {}\n# {}\n", id, ctx.seed, e));
+            None
+        }
+    }
+}
+
+fn scalars_or_fail(ctx: &mut Ctx, id: &str, c: &Case) -> Option<Vec<CommS>> {
+    match c.comm_scalars() {
+        Some(x) => Some(x),
+        None => {
+            ctx.rep.expect_fail(id, "ipa/commitment-not-key-defined", "commitment differs from <p,G> + rho*S (or the shifted window)", c.replay(id, ctx.seed, ""));
+            None
+        }
+    }
+}
+
+fn open_or_fail(ctx: &mut Ctx, rng: &mut Rng, id: &str, c: &Case, cs: &[CommS], idx: &[usize], z: Fr) -> Option<Opened> {
+    match open_at(ctx, rng, id, c, cs, idx, z, &c.ck, c.req) {
+        Ok(o) => Some(o),
+        Err(e) => {
+            let sig = if e == "proof-not-key-defined" { "ipa/proof-not-key-defined" } else { "ipa/honest-open-refused" };
+            ctx.rep.expect_fail(id, sig, &format!("open: {}", e), c.replay(id, ctx.seed, "open(honest)"));
+            None
+        }
+    }
+}
+
+fn vks(c: &Case) -> VkS {
+    VkS { trap: c.trap.clone(), req: c.req }
+}
+
+fn counts(ctx: &mut Ctx, c: &Case) {
+    for k in &c.kinds {
+        ctx.rep.count(&format!("ipa/poly-{}", k));
+    }
+    ctx.rep.count(&format!("ipa/s-{}", c.s));
+    ctx.rep.count(&format!("ipa/bounded-{}", c.polys.iter().filter(|p| p.degree_bound().is_some()).count()));
+    ctx.rep.count(&format!("ipa/hiding-{}", c.polys.iter().filter(|p| p.hiding_bound().is_some()).count()));
+}
+
+// ------------------------------------------------------------------------------------------------
+// C01
+// ------------------------------------------------------------------------------------------------
+
+fn c01(ctx: &mut Ctx) {
+    let variants = ctx.n(4, 16);
+    let mut k = 0u64;
+    for &req in degrees(ctx) {
+        for v in 0..variants {
+            k += 1;
+            let id = format!("C01/ipa-model/{}/{}", req, v);
+            if !ctx.selected(&id) {
+                continue;
+            }
+            let mut rng = rng_for(ctx.seed, "C01/ipa-model", k);
+            let npoly = 1 + v % 3;
+            let (bounds, hiding) = (v & 1 == 1, (v >> 1) & 1 == 1);
+            let c = match new_case(ctx, &mut rng, &id, req, npoly, bounds, hiding) { Some(c) => c, None => continue };
+            ask_trim_commit(ctx, &id, &c);
+            let cs = match scalars_or_fail(ctx, &id, &c) { Some(x) => x, None => continue };
+            let all: Vec<usize> = (0..c.polys.len()).collect();
+            let z = Fr::rand(&mut rng);
+            if let Some(o) = open_or_fail(ctx, &mut rng, &id, &c, &cs, &all, z) {
+                let out = check_scalar(ctx, &id, &vks(&c), &c.vk, &cs, o.z, &o.values, &o.ps);
+                if out != Outcome3::Accept {
+                    ctx.rep.expect_fail(&id, "ipa/honest-rejected", &format!("honest proof not accepted: {:?}", out), c.replay(&id, ctx.seed, "check(honest)"));
+                }
+            }
+            // batch with 2-3 point labels
+            let nl = range(&mut rng, 2, 3);
+            let (qs, ev) = gen_queries(&mut rng, &c, nl);
+            match batch_open(ctx, &mut rng, &id, &c, &cs, &qs) {
+                Ok(b) => {
+                    let out = batch_check_scalar(ctx, &mut rng, &id, &vks(&c), &c.vk, &cs, &qs, &ev, &b.ps);
+                    if out != Outcome3::Accept {
+                        ctx.rep.expect_fail(&id, "ipa/honest-batch-rejected", &format!("honest batch not accepted: {:?}", out), c.replay(&id, ctx.seed, "batch_check(honest)"));
+                    }
+                }
+                Err(e) => ctx.rep.expect_fail(&id, "ipa/honest-open-refused", &format!("batch_open: {}", e), c.replay(&id, ctx.seed, "batch_open(honest)")),
+            }
+            counts(ctx, &c);
+            ctx.rep.case(&c.desc(), Some(format!("ipa/{}/{}/{}/{}", c.s, npoly, bounds, hiding)));
+        }
+        // every degree 0..=s (and the zero polynomial), one polynomial, with and without bound
+        let s = (req + 1).next_power_of_two() - 1;
+        if req == s {
+            for d in 0..=(s + 1) {
+                let id = format!("C01/ipa-model/deg/{}/{}", s, d);
+                if !ctx.selected(&id) {
+                    continue;
+                }
+                let mut rng = rng_for(ctx.seed, "C01/ipa-model/deg", (s * 64 + d) as u64);
+                let trap = Trap::random(&mut rng, s + 1);
+                let pp = trap.params();
+                let (ck, vk) = match PC::trim(&pp, s, 0, None) { Ok(k) => k, Err(_) => continue };
+                let p = if d == s + 1 { UniPoly::from_coefficients_vec(vec![]) } else { UniPoly::rand(d, &mut rng) };
+                let deg = p.degree();
+                let bound = if coin(&mut rng) { Some(range(&mut rng, deg, s)) } else { None };
+                let hid = if d % 3 == 0 { Some(1) } else { None };
+                let lp = LabeledPolynomial::new("p".to_string(), p, bound, hid);
+                let commit_draws = replay_fr(&rng, 2);
+                let (comms, rands) = match PC::commit(&ck, [&lp], Some(&mut rng)) {
+                    Ok(x) => x,
+                    Err(e) => {
+                        ctx.rep.expect_fail(&id, "ipa/in-domain-setup-refused", &format!("commit refused degree {} <= {}: {:?}", deg, s, e), format!("# scheme: ipa\n# case: {}\n# seed: {}\n", id, ctx.seed));
+                        continue;
+                    }
+                };
+                let c = Case { trap, req: s, s, ck, vk, polys: vec![lp], kinds: vec!["exact-degree"], comms, rands, commit_draws };
+                ask_trim_commit(ctx, &id, &c);
+                let cs = match scalars_or_fail(ctx, &id, &c) { Some(x) => x, None => continue };
+                let z = Fr::rand(&mut rng);
+                if let Some(o) = open_or_fail(ctx, &mut rng, &id, &c, &cs, &[0], z) {
+                    let out = check_scalar(ctx, &id, &vks(&c), &c.vk, &cs, o.z, &o.values, &o.ps);
+                    if out != Outcome3::Accept {
+                        ctx.rep.expect_fail(&id, "ipa/honest-rejected", &format!("honest proof not accepted: {:?}", out), c.replay(&id, ctx.seed, "check(honest)"));
+                    }
+                }
+                ctx.rep.count("ipa/exact-degree");
+                ctx.rep.case(&c.desc(), Some(format!("ipa/deg/{}/{}", s, d)));
+            }
+        }
+    }
+    ctx.flush_model("C01-ipa");
+}
+
+// ------------------------------------------------------------------------------------------------
+// mutations of a single-point transcript
+// ------------------------------------------------------------------------------------------------
+
+#[derive(Clone, Copy, Debug, PartialEq, Eq)]
+pub enum M {
+    Value,
+    Point,
+    Comm,
+    CommOtherPoly,
+    Shifted,
+    ShiftedDrop,
+    ShiftedAdd,
+    ShiftedSwap,
+    BoundRelabel,
+    BoundDrop,
+    L,
+    R,
+    Fck,
+    C,
+    Hc,
+    Rand,
+    HidingToggle,
+    RoundsRemove,
+    RoundsAdd,
+    LenMismatch,
+    VkH,
+    VkS,
+    VkKey,
+}
+pub const STATEMENT: &[M] = &[M::Value, M::Point, M::Comm, M::CommOtherPoly];
+pub const BOUNDS: &[M] = &[M::Shifted, M::ShiftedDrop, M::ShiftedAdd, M::ShiftedSwap, M::BoundRelabel, M::BoundDrop];
+pub const PROOF: &[M] = &[M::L, M::R, M::Fck, M::C, M::Hc, M::Rand, M::HidingToggle];
+pub const SHAPE: &[M] = &[M::RoundsRemove, M::RoundsAdd, M::LenMismatch];
+pub const KEY: &[M] = &[M::VkH, M::VkS, M::VkKey];
+
+pub struct Mutated {
+    pub vks: VkS,
+    pub cs: Vec<CommS>,
+    pub z: Fr,
+    pub vs: Vec<Fr>,
+    pub p: ProofS,
+    /// the property requires a refusal of this statement
+    pub must: bool,
+}
+
+/// Apply one mutation (in scalar space) to an honest single-point transcript.  With
+/// `false_value` a value error is planted in addition, so the claim is false whatever else changes.
+pub fn mutate(rng: &mut Rng, c: &Case, cs0: &[CommS], o: &Opened, m: M, false_value: bool) -> Option<Mutated> {
+    let mut x = Mutated { vks: vks(c), cs: cs0.to_vec(), z: o.z, vs: o.values.clone(), p: o.ps.clone(), must: false };
+    let j = range(rng, 0, x.cs.len() - 1);
+    let bounded: Vec<usize> = (0..x.cs.len()).filter(|&i| x.cs[i].bound.is_some()).collect();
+    match m {
+        M::Value => {
+            x.vs[j] += rand_nonzero(rng);
+            x.must = true;
+        }
+        M::Point => {
+            x.z += rand_nonzero(rng);
+            x.must = c.polys.iter().zip(&x.vs).any(|(p, v)| p.evaluate(&x.z) != *v);
+        }
+        M::Comm => {
+            x.cs[j].c += rand_nonzero(rng);
+            x.must = true;
+        }
+        M::CommOtherPoly => {
+            let q = UniPoly::rand(range(rng, 0, c.s), rng);
+            let newc = dot(&c.trap.key, &q.coeffs);
+            x.must = newc != x.cs[j].c;
+            x.cs[j].c = newc;
+        }
+        M::Shifted => {
+            let i = *bounded.first()?;
+            x.cs[i].s = Some(x.cs[i].s? + rand_nonzero(rng));
+            x.must = true;
+        }
+        M::ShiftedDrop => {
+            let i = *bounded.first()?;
+            x.cs[i].s = None;
+            x.must = true;
+        }
+        M::ShiftedAdd => {
+            let i = (0..x.cs.len()).find(|&i| x.cs[i].bound.is_none())?;
+            x.cs[i].s = Some(Fr::rand(rng));
+            x.must = true;
+        }
+        M::ShiftedSwap => {
+            if bounded.len() < 2 {
+                return None;
+            }
+            let (a, b) = (bounded[0], bounded[1]);
+            let t = x.cs[a].s;
+            x.cs[a].s = x.cs[b].s;
+            x.cs[b].s = t;
+            x.must = x.cs[a].s != x.cs[b].s;
+        }
+        M::BoundRelabel => {
+            let i = *bounded.first()?;
+            let d = x.cs[i].bound?;
+            let others: Vec<usize> = (0..=c.s).filter(|b| *b != d).collect();
+            if others.is_empty() {
+                return None;
+            }
+            let d2 = others[range(rng, 0, others.len() - 1)];
+            x.cs[i].bound = Some(d2);
+            // accepted iff xi' * v * (z^(s-d') - z^(s-d)) * h' = 0
+            x.must = !x.vs[i].is_zero() && x.z.pow([(c.s - d2) as u64]) != x.z.pow([(c.s - d) as u64]);
+        }
+        M::BoundDrop => {
+            let i = *bounded.first()?;
+            x.cs[i].bound = None;
+            x.must = true;
+        }
+        M::L => {
+            if x.p.ls.is_empty() {
+                return None;
+            }
+            let i = range(rng, 0, x.p.ls.len() - 1);
+            x.p.ls[i] = Fr::rand(rng);
+        }
+        M::R => {
+            if x.p.rs.is_empty() {
+                return None;
+            }
+            let i = range(rng, 0, x.p.rs.len() - 1);
+            x.p.rs[i] = Fr::rand(rng);
+        }
+        M::Fck => x.p.fck = Fr::rand(rng),
+        M::C => x.p.c = Fr::rand(rng),
+        M::Hc => {
+            x.p.hc?;
+            x.p.hc = Some(Fr::rand(rng));
+        }
+        M::Rand => {
+            x.p.rand?;
+            x.p.rand = Some(Fr::rand(rng));
+        }
+        M::HidingToggle => match range(rng, 0, 2) {
+            0 => {
+                // hiding_comm without rand or the reverse: the assert fires
+                if x.p.hc.is_some() {
+                    x.p.hc = None
+                } else {
+                    x.p.hc = Some(Fr::rand(rng))
+                }
+            }
+            1 => {
+                if x.p.rand.is_some() {
+                    x.p.rand = None
+                } else {
+                    x.p.rand = Some(Fr::rand(rng))
+                }
+            }
+            _ => {
+                if x.p.hc.is_some() {
+                    x.p.hc = None;
+                    x.p.rand = None;
+                } else {
+                    x.p.hc = Some(Fr::rand(rng));
+                    x.p.rand = Some(Fr::rand(rng));
+                }
+            }
+        },
+        M::RoundsRemove => {
+            if x.p.ls.is_empty() {
+                return None;
+            }
+            let i = range(rng, 0, x.p.ls.len() - 1);
+            x.p.ls.remove(i);
+            x.p.rs.remove(i);
+        }
+        M::RoundsAdd => {
+            let i = range(rng, 0, x.p.ls.len());
+            x.p.ls.insert(i, Fr::rand(rng));
+            x.p.rs.insert(i, Fr::rand(rng));
+        }
+        M::LenMismatch => {
+            if coin(rng) && !x.p.ls.is_empty() {
+                x.p.ls.pop();
+            } else {
+                x.p.rs.push(Fr::rand(rng));
+            }
+        }
+        M::VkH => x.vks.trap.h = rand_nonzero(rng),
+        M::VkS => x.vks.trap.s = rand_nonzero(rng),
+        M::VkKey => {
+            let i = range(rng, 0, c.s);
+            x.vks.trap.key[i] = rand_nonzero(rng);
+        }
+    }
+    if false_value && m != M::Value {
+        x.vs[j] += rand_nonzero(rng);
+        // a false value stays false under every proof / shape / key mutation; statement mutations
+        // that replace the commitment or the point change what is claimed, keep their own verdict
+        if PROOF.contains(&m) || SHAPE.contains(&m) {
+            x.must = true;
+        }
+    }
+    Some(x)
+}
+
+/// honest single-point transcripts × mutations, `check` (and, with `also_batch`, the one-label
+/// `batch_check`) against the model
+fn mutation_run(ctx: &mut Ctx, prop: &str, tag: &str, muts: &[M], per_degree: usize, false_value: bool, also_batch: bool) {
+    let mut k = 0u64;
+    for &req in degrees(ctx) {
+        for v in 0..per_degree {
+            k += 1;
+            let id0 = format!("{}/ipa-model/{}/{}/{}", prop, tag, req, v);
+            if !ctx.selected(&id0) {
+                continue;
+            }
+            let mut rng = rng_for(ctx.seed, &format!("{}/ipa-model/{}", prop, tag), k);
+            let npoly = 1 + (v + req) % 3;
+            let c = match new_case(ctx, &mut rng, &id0, req, npoly, true, true) { Some(c) => c, None => continue };
+            let cs = match scalars_or_fail(ctx, &id0, &c) { Some(x) => x, None => continue };
+            let all: Vec<usize> = (0..c.polys.len()).collect();
+            let z = Fr::rand(&mut rng);
+            let o = match open_or_fail(ctx, &mut rng, &id0, &c, &cs, &all, z) { Some(o) => o, None => continue };
+            // the unmutated transcript must be accepted (and the model must agree)
+            let honest = check_scalar(ctx, &format!("{}/honest", id0), &vks(&c), &c.vk, &cs, o.z, &o.values, &o.ps);
+            if honest != Outcome3::Accept {
+                ctx.rep.expect_fail(&id0, "ipa/honest-rejected", &format!("honest proof not accepted: {:?}", honest), c.replay(&id0, ctx.seed, "check(honest)"));
+            }
+            for m in muts {
+                let id = format!("{}/{:?}", id0, m);
+                let fv = false_value && coin(&mut rng);
+                let x = match mutate(&mut rng, &c, &cs, &o, *m, fv) { Some(x) => x, None => continue };
+                let vk = if KEY.contains(m) {
+                    match vk_of(&x.vks.trap, x.vks.req) { Some(k) => k, None => continue }
+                } else {
+                    c.vk.clone()
+                };
+                let out = check_scalar(ctx, &id, &x.vks, &vk, &x.cs, x.z, &x.vs, &x.p);
+                ctx.rep.count(&format!("ipa/mut-{:?}", m));
+                if x.must && out == Outcome3::Accept {
+                    ctx.rep.expect_fail(&id, &format!("ipa/false-claim-accepted/{:?}", m), "check accepted a changed statement / a false claim", c.replay(&id, ctx.seed, &format!("mutation {:?} false_value={}", m, fv)));
+                }
+                if also_batch {
+                    // the same statement as a one-label batch
+                    let mut qs = QuerySet::new();
+                    let mut ev = Evaluations::new();
+                    for (cm, v) in x.cs.iter().zip(&x.vs) {
+                        qs.insert((cm.label.clone(), ("pt".to_string(), x.z)));
+                        ev.insert((cm.label.clone(), x.z), *v);
+                    }
+                    let idb = format!("{}/batch", id);
+                    let outb = batch_check_scalar(ctx, &mut rng, &idb, &x.vks, &vk, &x.cs, &qs, &ev, &[x.p.clone()]);
+                    if x.must && outb == Outcome3::Accept {
+                        ctx.rep.expect_fail(&idb, &format!("ipa/false-claim-accepted/batch/{:?}", m), "batch_check accepted a changed statement / a false claim", c.replay(&idb, ctx.seed, &format!("mutation {:?} false_value={}", m, fv)));
+                    }
+                    if (out == Outcome3::Accept) != (outb == Outcome3::Accept) {
+                        ctx.rep.expect_fail(&idb, &format!("ipa/batch-differs-from-check/{:?}", m), &format!("check: {:?}, one-label batch_check: {:?}", out, outb), c.replay(&idb, ctx.seed, &format!("mutation {:?} false_value={}", m, fv)));
+                    }
+                }
+                ctx.rep.case(&format!("{} mutation={:?} fv={} out={:?}", c.desc(), m, fv, out), Some(format!("ipa/{:?}/{}/{}/{}", m, c.s, npoly, fv)));
+            }
+            counts(ctx, &c);
+        }
+    }
+    ctx.flush_model(&format!("{}-ipa-{}", prop, tag));
+}
+
+fn c02(ctx: &mut Ctx) {
+    let n = ctx.n(3, 12);
+    mutation_run(ctx, "C02", "stmt", &[M::Value, M::Value, M::Point, M::Comm, M::CommOtherPoly, M::Shifted], n, false, false);
+    batch_runs(ctx, "C02", ctx.n(2, 8), false);
+}
+
+fn c03(ctx: &mut Ctx) {
+    let n = ctx.n(2, 10);
+    let muts: Vec<M> = PROOF.iter().chain(SHAPE).chain(&[M::L, M::R]).cloned().collect();
+    mutation_run(ctx, "C03", "proof", &muts, n, true, true);
+    d7(ctx, "C03");
+    forged(ctx, "C03", ctx.n(1, 6));
+    batch_runs(ctx, "C03", ctx.n(1, 6), true);
+}
+
+fn c10(ctx: &mut Ctx) {
+    let n = ctx.n(1, 8);
+    let all: Vec<M> = STATEMENT.iter().chain(BOUNDS).chain(PROOF).chain(SHAPE).chain(KEY).cloned().collect();
+    mutation_run(ctx, "C10", "fault", &all, n, false, true);
+}
+
+// ------------------------------------------------------------------------------------------------
+// D7: proof made with the key trimmed to a smaller size
+// ------------------------------------------------------------------------------------------------
+
+fn d7(ctx: &mut Ctx, prop: &str) {
+    let pairs: &[(usize, usize)] = if ctx.thorough { &[(1, 3), (3, 15), (1, 15), (3, 7), (7, 31), (7, 15), (0, 1), (0, 7)] } else { &[(1, 3), (3, 15), (3, 7), (0, 1), (1, 7)] };
+    for (i, &(small, big)) in pairs.iter().enumerate() {
+        for hid in [false, true] {
+            let id = format!("{}/ipa-model/d7/{}-{}-{}", prop, small, big, hid as u8);
+            if !ctx.selected(&id) {
+                continue;
+            }
+            let mut rng = rng_for(ctx.seed, &format!("{}/ipa-model/d7", prop), (i * 2 + hid as usize) as u64);
+            let trap = Trap::random(&mut rng, big + 1);
+            let pp = trap.params();
+            let (ck_big, vk_big) = PC::trim(&pp, big, 0, None).unwrap();
+            let (ck_small, vk_small) = PC::trim(&pp, small, 0, None).unwrap();
+            // unbounded polynomials of degree <= small: the same commitment under both keys
+            let npoly = range(&mut rng, 1, 2);
+            let polys: Vec<LP> = (0..npoly)
+                .map(|j| LabeledPolynomial::new(format!("p{}", j), UniPoly::rand(range(&mut rng, 0, small), &mut rng), None, if hid { Some(1) } else { None }))
+                .collect();
+            let commit_draws = replay_fr(&rng, 2 * npoly);
+            let (comms, rands) = PC::commit(&ck_big, &polys, Some(&mut rng)).unwrap();
+            let c = Case { trap: trap.clone(), req: big, s: big, ck: ck_big, vk: vk_big, polys, kinds: vec!["dense"; npoly], comms, rands, commit_draws };
+            let cs = match scalars_or_fail(ctx, &id, &c) { Some(x) => x, None => continue };
+            let all: Vec<usize> = (0..npoly).collect();
+            let z = Fr::rand(&mut rng);
+            // the proof: honest prover with the *small* key (model: `ipa.open supported=small`)
+            let o = match open_at(ctx, &mut rng, &id, &c, &cs, &all, z, &ck_small, small) {
+                Ok(o) => o,
+                Err(e) => {
+                    ctx.rep.expect_fail(&id, "ipa/honest-open-refused", &format!("open with the small key: {}", e), c.replay(&id, ctx.seed, "d7"));
+                    continue;
+                }
+            };
+            // sanity: it verifies under the small key
+            let ok_small = check_scalar(ctx, &format!("{}/small", id), &VkS { trap: trap.clone(), req: small }, &vk_small, &cs, z, &o.values, &o.ps);
+            if ok_small != Outcome3::Accept {
+                ctx.rep.expect_fail(&id, "ipa/honest-rejected", "proof made with the small key is not accepted by the small key", c.replay(&id, ctx.seed, "d7"));
+            }
+            // presented to the big key: both verifiers must refuse
+            let out = check_scalar(ctx, &format!("{}/check", id), &vks(&c), &c.vk, &cs, z, &o.values, &o.ps);
+            let mut qs = QuerySet::new();
+            let mut ev = Evaluations::new();
+            for (cm, v) in cs.iter().zip(&o.values) {
+                qs.insert((cm.label.clone(), ("pt".to_string(), z)));
+                ev.insert((cm.label.clone(), z), *v);
+            }
+            let outb = batch_check_scalar(ctx, &mut rng, &format!("{}/batch", id), &vks(&c), &c.vk, &cs, &qs, &ev, &[o.ps.clone()]);
+            if out == Outcome3::Accept {
+                ctx.rep.expect_fail(&id, "ipa/short-proof-accepted/check", "check accepted a proof with too few rounds", c.replay(&id, ctx.seed, "d7: proof made with the key trimmed to a smaller size"));
+            }
+            if outb == Outcome3::Accept {
+                ctx.rep.expect_fail(&id, "ipa/short-proof-accepted/batch_check", "batch_check accepted a proof with too few rounds (check refuses it)", c.replay(&id, ctx.seed, "d7: proof made with the key trimmed to a smaller size"));
+            }
+            // the same with a false value
+            let mut vs2 = o.values.clone();
+            vs2[0] += rand_nonzero(&mut rng);
+            let out2 = check_scalar(ctx, &format!("{}/check-false", id), &vks(&c), &c.vk, &cs, z, &vs2, &o.ps);
+            let mut ev2 = ev.clone();
+            *ev2.get_mut(&(cs[0].label.clone(), z)).unwrap() = vs2[0];
+            let outb2 = batch_check_scalar(ctx, &mut rng, &format!("{}/batch-false", id), &vks(&c), &c.vk, &cs, &qs, &ev2, &[o.ps.clone()]);
+            if out2 == Outcome3::Accept || outb2 == Outcome3::Accept {
+                ctx.rep.expect_fail(&id, "ipa/false-claim-accepted/short-proof", &format!("false value with a short proof: check {:?}, batch_check {:?}", out2, outb2), c.replay(&id, ctx.seed, "d7 + false value"));
+            }
+            ctx.rep.count("ipa/d7");
+            ctx.rep.case(&format!("{} d7 small={} big={} check={:?} batch={:?}", c.desc(), small, big, out, outb), Some(format!("ipa/d7/{}/{}/{}", small, big, hid)));
+        }
+    }
+    ctx.flush_model(&format!("{}-ipa-d7", prop));
+}
+
+/// forged proofs for a false value: the honest prover run on another polynomial against
+/// commitment(p); the proof for another point
+fn forged(ctx: &mut Ctx, prop: &str, per_degree: usize) {
+    let mut k = 0u64;
+    for &req in degrees(ctx) {
+        for v in 0..per_degree {
+            k += 1;
+            let id = format!("{}/ipa-model/forge/{}/{}", prop, req, v);
+            if !ctx.selected(&id) {
+                continue;
+            }
+            let mut rng = rng_for(ctx.seed, &format!("{}/ipa-model/forge", prop), k);
+            let c = match new_case(ctx, &mut rng, &id, req, 1, true, true) { Some(c) => c, None => continue };
+            let cs = match scalars_or_fail(ctx, &id, &c) { Some(x) => x, None => continue };
+            let p0 = c.polys[0].clone();
+            let z = Fr::rand(&mut rng);
+            // prover run on q (same label / bound / state) against commitment(p)
+            let dq = match p0.degree_bound() { Some(b) => range(&mut rng, 0, b), None => range(&mut rng, 0, c.s) };
+            let q = UniPoly::rand(dq, &mut rng);
+            let lq = LabeledPolynomial::new(p0.label().clone(), q.clone(), p0.degree_bound(), p0.hiding_bound());
+            let c2 = Case { trap: c.trap.clone(), req: c.req, s: c.s, ck: c.ck.clone(), vk: c.vk.clone(), polys: vec![lq], kinds: vec!["dense"], comms: c.comms.clone(), rands: c.rands.clone(), commit_draws: vec![] };
+            if let Ok(o) = open_at(ctx, &mut rng, &format!("{}/otherpoly", id), &c2, &cs, &[0], z, &c.ck, c.req) {
+                let v = q.evaluate(&z);
+                if v != p0.evaluate(&z) {
+                    let out = check_scalar(ctx, &format!("{}/otherpoly", id), &vks(&c), &c.vk, &cs, z, &[v], &o.ps);
+                    if out == Outcome3::Accept {
+                        ctx.rep.expect_fail(&id, "ipa/forged-proof-accepted/other-polynomial", "proof made from another polynomial accepted for a false value", c.replay(&id, ctx.seed, "prover run on q against commitment(p)"));
+                    }
+                    ctx.rep.count("ipa/forge-other-polynomial");
+                    ctx.rep.case(&format!("{} forge=other-polynomial out={:?}", c.desc(), out), Some(format!("ipa/forge/otherpoly/{}/{}", c.s, dq)));
+                }
+            }
+            // proof for (p, z') presented at z with the value p(z')
+            let z2 = Fr::rand(&mut rng);
+            if let Some(o) = open_or_fail(ctx, &mut rng, &format!("{}/otherpoint", id), &c, &cs, &[0], z2) {
+                let v = p0.evaluate(&z2);
+                if v != p0.evaluate(&z) {
+                    let out = check_scalar(ctx, &format!("{}/otherpoint", id), &vks(&c), &c.vk, &cs, z, &[v], &o.ps);
+                    if out == Outcome3::Accept {
+                        ctx.rep.expect_fail(&id, "ipa/forged-proof-accepted/other-point", "proof for another point accepted", c.replay(&id, ctx.seed, "replayed proof"));
+                    }
+                    ctx.rep.count("ipa/forge-other-point");
+                    ctx.rep.case(&format!("{} forge=other-point out={:?}", c.desc(), out), Some(format!("ipa/forge/otherpoint/{}", c.s)));
+                }
+            }
+        }
+    }
+    ctx.flush_model(&format!("{}-ipa-forge", prop));
+}
+
+// ------------------------------------------------------------------------------------------------
+// batches (C02 / C03 / C05)
+// ------------------------------------------------------------------------------------------------
+
+fn batch_verdict(ctx: &mut Ctx, rng: &mut Rng, id: &str, c: &Case, cs: &[CommS], qs: &QuerySet<Fr>, ev: &Evaluations<Fr, Fr>, ps: &[ProofS], must_refuse: bool, what: &str) -> Outcome3 {
+    let ind = individual_checks(&c.vk, cs, qs, ev, ps);
+    let out = batch_check_scalar(ctx, rng, id, &vks(c), &c.vk, cs, qs, ev, ps);
+    if (out == Outcome3::Accept) != (ind == Outcome3::Accept) {
+        ctx.rep.expect_fail(id, &format!("ipa/batch-differs-from-individual/{}", what), &format!("batch_check: {:?}, conjunction of the individual checks: {:?}", out, ind), c.replay(id, ctx.seed, what));
+    }
+    if must_refuse && out == Outcome3::Accept {
+        ctx.rep.expect_fail(id, &format!("ipa/false-claim-accepted/batch-{}", what), "batch with a false claim accepted", c.replay(id, ctx.seed, what));
+    }
+    if !must_refuse && what == "honest" && out != Outcome3::Accept {
+        ctx.rep.expect_fail(id, "ipa/honest-batch-rejected", &format!("honest batch not accepted: {:?}", out), c.replay(id, ctx.seed, what));
+    }
+    out
+}
+
+/// batches with 2–3 point labels × 1–3 polynomials per label: every subset of false claims (small
+/// batches) or random subsets, cancelling errors, proof components replaced inside the batch,
+/// proof-list shapes with a false claim planted, several verifier RNG states
+fn batch_runs(ctx: &mut Ctx, prop: &str, per_degree: usize, shapes: bool) {
+    let mut k = 0u64;
+    for &req in degrees(ctx) {
+        for v in 0..per_degree {
+            k += 1;
+            let id0 = format!("{}/ipa-model/batch/{}/{}", prop, req, v);
+            if !ctx.selected(&id0) {
+                continue;
+            }
+            let mut rng = rng_for(ctx.seed, &format!("{}/ipa-model/batch", prop), k);
+            let npoly = range(&mut rng, 2, 3);
+            let c = match new_case(ctx, &mut rng, &id0, req, npoly, true, true) { Some(c) => c, None => continue };
+            let cs = match scalars_or_fail(ctx, &id0, &c) { Some(x) => x, None => continue };
+            let nl = range(&mut rng, 2, 3);
+            let (qs, ev) = gen_queries(&mut rng, &c, nl);
+            let b = match batch_open(ctx, &mut rng, &id0, &c, &cs, &qs) {
+                Ok(b) => b,
+                Err(e) => {
+                    ctx.rep.expect_fail(&id0, "ipa/honest-open-refused", &format!("batch_open: {}", e), c.replay(&id0, ctx.seed, "batch_open"));
+                    continue;
+                }
+            };
+            let keys: Vec<(String, Fr)> = ev.keys().cloned().collect();
+            // honest, under two verifier RNG states
+            for r in 0..2 {
+                let mut vr = rng_for(ctx.seed ^ 0x55, &id0, r);
+                batch_verdict(ctx, &mut vr, &format!("{}/honest{}", id0, r), &c, &cs, &qs, &ev, &b.ps, false, "honest");
+            }
+            ctx.rep.case(&format!("{} batch honest labels={} claims={}", c.desc(), nl, keys.len()), Some(format!("ipa-batch/{}/{}/{}/honest", c.s, npoly, nl)));
+            // subsets of false claims
+            let subsets: Vec<u32> = if keys.len() <= 3 { (1..(1u32 << keys.len())).collect() } else { (0..5).map(|_| 1 + (rng.next_u32_() % ((1u32 << keys.len()) - 1))).collect() };
+            for sub in subsets {
+                let id = format!("{}/false-{:b}", id0, sub);
+                let mut ev2 = ev.clone();
+                for (i, key) in keys.iter().enumerate() {
+                    if sub >> i & 1 == 1 {
+                        *ev2.get_mut(key).unwrap() += rand_nonzero(&mut rng);
+                    }
+                }
+                let out = batch_verdict(ctx, &mut rng, &id, &c, &cs, &qs, &ev2, &b.ps, true, "value");
+                ctx.rep.count("ipa/batch-value-subset");
+                ctx.rep.case(&format!("{} batch false={:b} out={:?}", c.desc(), sub, out), Some(format!("ipa-batch/{}/{}/{}/false{}", c.s, npoly, nl, sub.count_ones())));
+            }
+            // cancelling errors: within one point when two polynomials share it, else across points
+            if keys.len() >= 2 {
+                let mut pair = None;
+                for a in 0..keys.len() {
+                    for bb in a + 1..keys.len() {
+                        if keys[a].1 == keys[bb].1 && pair.is_none() {
+                            pair = Some((a, bb));
+                        }
+                    }
+                }
+                let (a, bb) = pair.unwrap_or((0, 1));
+                let id = format!("{}/cancel@{},{}", id0, a, bb);
+                let d = rand_nonzero(&mut rng);
+                let mut ev2 = ev.clone();
+                *ev2.get_mut(&keys[a]).unwrap() += d;
+                *ev2.get_mut(&keys[bb]).unwrap() -= d;
+                let out = batch_verdict(ctx, &mut rng, &id, &c, &cs, &qs, &ev2, &b.ps, true, "cancelling");
+                ctx.rep.count(if pair.is_some() { "ipa/batch-cancel-same-point" } else { "ipa/batch-cancel-across-points" });
+                ctx.rep.case(&format!("{} batch cancel out={:?}", c.desc(), out), Some(format!("ipa-batch/{}/{}/cancel{}", c.s, npoly, pair.is_some())));
+            }
+            // one proof component replaced inside the batch (true claims): batch = individual = model
+            for comp in ["fck", "c", "l", "r"] {
+                let id = format!("{}/comp-{}", id0, comp);
+                let mut ps2 = b.ps.clone();
+                let i = range(&mut rng, 0, ps2.len() - 1);
+                match comp {
+                    "fck" => ps2[i].fck = Fr::rand(&mut rng),
+                    "c" => ps2[i].c = Fr::rand(&mut rng),
+                    "l" => {
+                        if ps2[i].ls.is_empty() {
+                            continue;
+                        }
+                        ps2[i].ls[0] = Fr::rand(&mut rng)
+                    }
+                    _ => {
+                        if ps2[i].rs.is_empty() {
+                            continue;
+                        }
+                        let last = ps2[i].rs.len() - 1;
+                        ps2[i].rs[last] = Fr::rand(&mut rng)
+                    }
+                }
+                let out = batch_verdict(ctx, &mut rng, &id, &c, &cs, &qs, &ev, &ps2, false, comp);
+                ctx.rep.count(&format!("ipa/batch-comp-{}", comp));
+                ctx.rep.case(&format!("{} batch comp={} out={:?}", c.desc(), comp, out), Some(format!("ipa-batch/{}/comp-{}/{}", c.s, comp, i)));
+            }
+            if shapes {
+                // proof-list shapes and malformed proofs inside a batch, with a false claim planted
+                let mut ev2 = ev.clone();
+                *ev2.get_mut(&keys[0]).unwrap() += rand_nonzero(&mut rng);
+                let mut list: Vec<(&str, Vec<ProofS>)> = vec![("empty", vec![])];
+                list.push(("truncated", b.ps[..b.ps.len() - 1].to_vec()));
+                let mut e = b.ps.clone();
+                e.push(b.ps[0].clone());
+                list.push(("extended", e));
+                if b.ps.len() >= 2 {
+                    let mut p = b.ps.clone();
+                    p.swap(0, 1);
+                    list.push(("swapped", p));
+                }
+                for pos in 0..b.ps.len() {
+                    if !b.ps[pos].ls.is_empty() {
+                        let mut p = b.ps.clone();
+                        p[pos].ls.pop();
+                        p[pos].rs.pop();
+                        list.push(("short-rounds", p));
+                    }
+                    let mut p = b.ps.clone();
+                    p[pos].ls.push(Fr::rand(&mut rng));
+                    p[pos].rs.push(Fr::rand(&mut rng));
+                    list.push(("long-rounds", p));
+                    let mut p = b.ps.clone();
+                    p[pos].rs.push(Fr::rand(&mut rng));
+                    list.push(("lr-mismatch", p));
+                }
+                for (j, (sname, ps2)) in list.into_iter().enumerate() {
+                    let id = format!("{}/shape-{}-{}", id0, sname, j);
+                    let out = batch_verdict(ctx, &mut rng, &id, &c, &cs, &qs, &ev2, &ps2, true, sname);
+                    ctx.rep.count(&format!("ipa/shape-{}", sname));
+                    ctx.rep.case(&format!("{} shape={} out={:?}", c.desc(), sname, out), Some(format!("ipa-batch/{}/shape-{}", c.s, sname)));
+                }
+            }
+            counts(ctx, &c);
+        }
+    }
+    ctx.flush_model(&format!("{}-ipa-batch", prop));
+}
+
+trait NextU32 {
+    fn next_u32_(&mut self) -> u32;
+}
+impl NextU32 for Rng {
+    fn next_u32_(&mut self) -> u32 {
+        use ark_std::rand::RngCore;
+        self.next_u32()
+    }
+}
+
+fn c05(ctx: &mut Ctx) {
+    batch_runs(ctx, "C05", ctx.n(2, 12), true);
+}
+
+// ------------------------------------------------------------------------------------------------
+// C04: admission + mislabelled bounds
+// ------------------------------------------------------------------------------------------------
+
+fn c04(ctx: &mut Ctx) {
+    let n = ctx.n(3, 12);
+    mutation_run(ctx, "C04", "mislabel", &[M::BoundRelabel, M::BoundRelabel, M::BoundDrop, M::ShiftedDrop, M::ShiftedAdd, M::ShiftedSwap, M::Shifted], n, false, false);
+    // honest use is accepted for every bound d in [deg p, s]
+    for &req in degrees(ctx) {
+        let s = (req + 1).next_power_of_two() - 1;
+        if req != s || (s > 15 && !ctx.thorough) {
+            continue;
+        }
+        let id0 = format!("C04/ipa-model/every-bound/{}", s);
+        if !ctx.selected(&id0) {
+            continue;
+        }
+        let mut rng = rng_for(ctx.seed, "C04/ipa-model/every-bound", s as u64);
+        let trap = Trap::random(&mut rng, s + 1);
+        let pp = trap.params();
+        let (ck, vk) = match PC::trim(&pp, s, 0, None) { Ok(x) => x, Err(_) => continue };
+        let deg = range(&mut rng, 0, s);
+        let p = UniPoly::rand(deg, &mut rng);
+        for d in deg..=s {
+            let id = format!("{}/{}", id0, d);
+            let lp = LabeledPolynomial::new("p".to_string(), p.clone(), Some(d), if d % 2 == 0 { Some(1) } else { None });
+            let commit_draws = replay_fr(&rng, 2);
+            let (comms, rands) = match PC::commit(&ck, [&lp], Some(&mut rng)) {
+                Ok(x) => x,
+                Err(e) => {
+                    ctx.rep.expect_fail(&id, "ipa/admissible-refused", &format!("commit refused bound {} for degree {} (supported {}): {:?}", d, deg, s, e), format!("# scheme: ipa\n# case: {}\n# seed: {}\n", id, ctx.seed));
+                    continue;
+                }
+            };
+            let c = Case { trap: trap.clone(), req: s, s, ck: ck.clone(), vk: vk.clone(), polys: vec![lp], kinds: vec!["dense"], comms, rands, commit_draws };
+            ask_trim_commit(ctx, &id, &c);
+            let cs = match scalars_or_fail(ctx, &id, &c) { Some(x) => x, None => continue };
+            let z = Fr::rand(&mut rng);
+            if let Some(o) = open_or_fail(ctx, &mut rng, &id, &c, &cs, &[0], z) {
+                let out = check_scalar(ctx, &id, &vks(&c), &c.vk, &cs, o.z, &o.values, &o.ps);
+                if out != Outcome3::Accept {
+                    ctx.rep.expect_fail(&id, "ipa/honest-rejected", &format!("honest bounded proof not accepted: {:?}", out), c.replay(&id, ctx.seed, "check(honest, bounded)"));
+                }
+            }
+            ctx.rep.count("ipa/every-bound");
+            ctx.rep.case(&format!("{} bound={}", c.desc(), d), Some(format!("ipa/every-bound/{}/{}", s, d - deg)));
+        }
+    }
+    ctx.flush_model("C04-ipa-every-bound");
+    // admission around every boundary
+    let per = ctx.n(10, 40);
+    let mut k = 0u64;
+    for &req in degrees(ctx) {
+        for v in 0..per {
+            k += 1;
+            let id = format!("C04/ipa-model/admission/{}/{}", req, v);
+            if !ctx.selected(&id) {
+                continue;
+            }
+            let mut rng = rng_for(ctx.seed, "C04/ipa-model/admission", k);
+            let sd = (req + 1).next_power_of_two();
+            let n = if coin(&mut rng) { sd } else { 2 * sd };
+            let trap = Trap::random(&mut rng, n);
+            let pp = trap.params();
+            let (ck, vk) = match PC::trim(&pp, req, 0, None) { Ok(x) => x, Err(_) => continue };
+            let s = ck.supported_degree();
+            let degs = [0usize, 1, s.saturating_sub(1), s, s + 1, s + 2, n - 1, n];
+            let deg = degs[range(&mut rng, 0, degs.len() - 1)];
+            let p = if range(&mut rng, 0, 9) == 0 { UniPoly::from_coefficients_vec(vec![]) } else { UniPoly::rand(deg, &mut rng) };
+            let deg = p.degree();
+            let cands: Vec<Option<usize>> = vec![None, Some(deg), Some(deg.saturating_sub(1)), Some(deg + 1), Some(0), Some(s), Some(s + 1), Some(s.saturating_sub(1)), Some(n)];
+            let bound = cands[range(&mut rng, 0, cands.len() - 1)];
+            let lp = LabeledPolynomial::new("p".to_string(), p.clone(), bound, None);
+            let r = guarded(|| PC::commit(&ck, [&lp], None));
+            let admissible = deg <= s && match bound { None => true, Some(b) => b >= deg && b <= s };
+            let answered = matches!(r, Ok(Ok(_)));
+            if answered != admissible {
+                ctx.rep.expect_fail(&id, if answered { "ipa/inadmissible-bound-committed" } else { "ipa/admissible-refused" },
+                    &format!("commit: admissible={} answered={} (deg {} bound {:?} supported {})", admissible, answered, deg, bound, s),
+                    format!("# scheme: ipa\n# case: {}\n# seed: {}\n# deg {} bound {:?} supported {}\n", id, ctx.seed, deg, bound, s));
+            }
+            let req_m = polys_args(base_of(&trap, "ipa.commit", req), &[lp.clone()]).arg("rng", wire::boolean(false)).arg("draws", wire::fes::<Fr>(&[]));
+            let out = match &r {
+                Ok(Ok((cm, _))) => ImplOutcome::Ok(vec![
+                    ("cs".into(), Expect::G1s(cm.iter().map(|x| x.commitment().comm).collect())),
+                    ("ss".into(), Expect::OptG1List(cm.iter().map(|x| x.commitment().shifted_comm).collect())),
+                ]),
+                Ok(Err(e)) => ImplOutcome::Refuse(err_kind(e)),
+                Err(a) => ImplOutcome::Refuse(a.clone()),
+            };
+            ctx.ses.ask(&id, req_m, out);
+            // the prover's admission: commit the polynomial without its bound (when that is admissible),
+            // then ask `open` for it under the inadmissible label
+            if !admissible && deg <= s {
+                let plain = LabeledPolynomial::new("p".to_string(), p.clone(), None, None);
+                if let Ok((cm, st)) = PC::commit(&ck, [&plain], None) {
+                    let z = Fr::rand(&mut rng);
+                    let mut sp = LogSponge::fresh();
+                    ro_clear();
+                    let ro = guarded(|| PC::open(&ck, [&lp], &cm, &z, &mut sp, &st, None));
+                    let (ros, _) = ro_take();
+                    let opened = matches!(ro, Ok(Ok(_)));
+                    if opened {
+                        ctx.rep.expect_fail(&id, "ipa/inadmissible-bound-opened", &format!("open answered for deg {} bound {:?} supported {}", deg, bound, s),
+                            format!("# scheme: ipa\n# case: {}\n# seed: {}\n", id, ctx.seed));
+                    }
+                    let csx = vec![CommS { label: "p".into(), c: dot(&trap.key, &p.coeffs), s: None, bound: None }];
+                    let mut xis = sp.challenges();
+                    let mut extra = rng_for(3, &id, 5);
+                    while xis.len() < 3 {
+                        xis.push(Fr::rand(&mut extra));
+                    }
+                    let mut ros_full = ros.clone();
+                    while ros_full.len() < 8 {
+                        ros_full.push(rand_nonzero(&mut extra));
+                    }
+                    let rq = comms_args(rands_args(polys_args(base_of(&trap, "ipa.open", req), &[lp.clone()]), &st), &csx)
+                        .arg("z", wire::fe(&z)).arg("xis", wire::fes(&xis)).arg("ros", wire::fes(&ros_full))
+                        .arg("rng", wire::boolean(false)).arg("draws", wire::fes::<Fr>(&[]));
+                    let outo = match &ro {
+                        Ok(Ok(_)) => ImplOutcome::Ok(vec![]),
+                        Ok(Err(e)) => ImplOutcome::Refuse(err_kind(e)),
+                        Err(a) => ImplOutcome::Refuse(a.clone()),
+                    };
+                    ctx.ses.ask(&format!("{}/open", id), rq, outo);
+                    ctx.rep.count("ipa/open-admission");
+                }
+            }
+            let _ = vk;
+            ctx.rep.count(&format!("ipa/admissible-{}", admissible));
+            ctx.rep.case(&format!("ipa admission N={} s={} deg={} bound={:?} -> {}", n, s, deg, bound, answered),
+                Some(format!("ipa/adm/{}/{}/{:?}/{}", s, deg as i64 - s as i64, bound.map(|b| (b as i64 - deg as i64).signum()), admissible)));
+        }
+    }
+    ctx.flush_model("C04-ipa-admission");
+}
+
+// ------------------------------------------------------------------------------------------------
+// C08
+// ------------------------------------------------------------------------------------------------
+
+fn c08(ctx: &mut Ctx) {
+    use crate::props_c08::naive_sum;
+    let per = ctx.n(4, 20);
+    let mut k = 0u64;
+    for &req in degrees(ctx) {
+        for v in 0..per {
+            k += 1;
+            let id = format!("C08/ipa-model/{}/{}", req, v);
+            if !ctx.selected(&id) {
+                continue;
+            }
+            let mut rng = rng_for(ctx.seed, "C08/ipa-model", k);
+            let c = match new_case(ctx, &mut rng, &id, req, 2, true, v % 2 == 1) { Some(c) => c, None => continue };
+            ask_trim_commit(ctx, &id, &c);
+            let _ = scalars_or_fail(ctx, &id, &c);
+            // equals-spec: naive sums over the *published* key points (no MSM code shared)
+            for ((p, cm), st) in c.polys.iter().zip(&c.comms).zip(&c.rands) {
+                let spec = (naive_sum(&c.ck.comm_key, &p.polynomial().coeffs) + naive_sum(&[c.ck.s], &[st.rand])).into_affine();
+                if spec != cm.commitment().comm {
+                    ctx.rep.expect_fail(&id, "ipa/commit-not-key-defined", "commitment differs from the naive sum over the key (+ rand*S)", c.replay(&id, ctx.seed, p.label()));
+                }
+                match (p.degree_bound(), cm.commitment().shifted_comm) {
+                    (Some(d), Some(sc)) => {
+                        let spec = (naive_sum(&c.ck.comm_key[(c.s - d)..], &p.polynomial().coeffs) + naive_sum(&[c.ck.s], &[st.shifted_rand.unwrap_or(Fr::zero())])).into_affine();
+                        if spec != sc {
+                            ctx.rep.expect_fail(&id, "ipa/shifted-commit-not-key-defined", "shifted commitment differs from the naive sum over comm_key[s-d..]", c.replay(&id, ctx.seed, p.label()));
+                        }
+                    }
+                    (None, None) => {}
+                    _ => ctx.rep.expect_fail(&id, "ipa/shifted-part-mismatch", "bound and shifted commitment do not come together", c.replay(&id, ctx.seed, p.label())),
+                }
+            }
+            // homomorphism on the implementation (non-hiding, unbounded and bounded)
+            let (p, q) = (c.polys[0].polynomial().clone(), c.polys[1].polynomial().clone());
+            let (a, b) = (Fr::rand(&mut rng), Fr::rand(&mut rng));
+            let lin = &(&p * a) + &(&q * b);
+            let d = Some(range(&mut rng, lin.degree().max(p.degree()).max(q.degree()), c.s));
+            let mk = |poly: &UniPoly| LabeledPolynomial::new("x".to_string(), poly.clone(), d, None);
+            let r = guarded(|| {
+                let (cp, _) = PC::commit(&c.ck, [&mk(&p)], None).unwrap();
+                let (cq, _) = PC::commit(&c.ck, [&mk(&q)], None).unwrap();
+                let (cl, _) = PC::commit(&c.ck, [&mk(&lin)], None).unwrap();
+                let plain = (cp[0].commitment().comm.mul(a) + cq[0].commitment().comm.mul(b)).into_affine() == cl[0].commitment().comm;
+                let sh = (cp[0].commitment().shifted_comm.unwrap().mul(a) + cq[0].commitment().shifted_comm.unwrap().mul(b)).into_affine() == cl[0].commitment().shifted_comm.unwrap();
+                (plain, sh)
+            });
+            if r != Ok((true, true)) {
+                ctx.rep.expect_fail(&id, "ipa/not-homomorphic", &format!("commit(a p + b q) != a commit(p) + b commit(q): {:?}", r), c.replay(&id, ctx.seed, "homomorphism"));
+            }
+            // zero polynomial -> identity
+            let zero = LabeledPolynomial::new("z".to_string(), UniPoly::from_coefficients_vec(vec![Fr::zero(); 2]), Some(c.s / 2), None);
+            if let Ok((cz, _)) = PC::commit(&c.ck, [&zero], None) {
+                if !cz[0].commitment().comm.is_zero() || !cz[0].commitment().shifted_comm.map(|x| x.is_zero()).unwrap_or(false) {
+                    ctx.rep.expect_fail(&id, "ipa/zero-not-identity", "zero polynomial does not commit to the identity", c.replay(&id, ctx.seed, "zero"));
+                }
+            }
+            counts(ctx, &c);
+            ctx.rep.case(&c.desc(), Some(format!("ipa/c08/{}/{}", c.s, v % 2)));
+        }
+    }
+    ctx.flush_model("C08-ipa");
+    let _: Option<(G1Affine, G1Projective, CommitterKey<G1Affine>)> = None;
+}
+
+// ------------------------------------------------------------------------------------------------
+// C19
+// ------------------------------------------------------------------------------------------------
+
+fn c19(ctx: &mut Ctx) {
+    let mut k = 0u64;
+    for &req in degrees(ctx) {
+        for (bound, hiding) in [(false, false), (true, false), (false, true), (true, true)] {
+            for npoly in 1..=2usize {
+                k += 1;
+                let id = format!("C19/ipa-model/{}/{}{}/{}", req, bound as u8, hiding as u8, npoly);
+                if !ctx.selected(&id) {
+                    continue;
+                }
+                let mut rng = rng_for(ctx.seed, "C19/ipa-model", k);
+                let mut c = match new_case(ctx, &mut rng, &id, req, npoly, false, false) { Some(c) => c, None => continue };
+                // force the requested bound / hiding setting on every polynomial
+                let polys: Vec<LP> = c.polys.iter().map(|p| LabeledPolynomial::new(p.label().clone(), p.polynomial().clone(), if bound { Some(c.s) } else { None }, if hiding { Some(1) } else { None })).collect();
+                c.commit_draws = replay_fr(&rng, 2 * npoly);
+                let (comms, rands) = match PC::commit(&c.ck, &polys, Some(&mut rng)) { Ok(x) => x, Err(_) => continue };
+                c.polys = polys;
+                c.comms = comms;
+                c.rands = rands;
+                let cs = match scalars_or_fail(ctx, &id, &c) { Some(x) => x, None => continue };
+                let all: Vec<usize> = (0..npoly).collect();
+                let z = Fr::rand(&mut rng);
+                let o = match open_or_fail(ctx, &mut rng, &id, &c, &cs, &all, z) { Some(o) => o, None => continue };
+                let kk = ark_std::log2(c.s + 1) as usize;
+                let law = 2 * (8 + 48 * kk) + 48 + 32 + if hiding { 1 + 48 + 1 + 32 } else { 2 };
+                let size = o.proof.serialized_size(Compress::Yes);
+                if o.proof.l_vec.len() != kk || o.proof.r_vec.len() != kk || size != law {
+                    ctx.rep.expect_fail(&id, "ipa/size-law", &format!("s={}: |l_vec|={} |r_vec|={} (law {}), proof bytes {} (law {})", c.s, o.proof.l_vec.len(), o.proof.r_vec.len(), kk, size, law), c.replay(&id, ctx.seed, "proof shape"));
+                }
+                let csize = c.comms[0].commitment().serialized_size(Compress::Yes);
+                let claw = 48 + 1 + if bound { 48 } else { 0 };
+                if csize != claw {
+                    ctx.rep.expect_fail(&id, "ipa/size-law", &format!("commitment bytes {} (law {})", csize, claw), c.replay(&id, ctx.seed, "commitment shape"));
+                }
+                ctx.rep.count(&format!("ipa/rounds-{}", kk));
+                ctx.rep.case(&format!("{} rounds={} bytes={}", c.desc(), kk, size), Some(format!("ipa/c19/{}/{}/{}/{}", c.s, bound, hiding, npoly)));
+            }
+        }
+    }
+    ctx.flush_model("C19-ipa");
 }
